@@ -6,6 +6,7 @@
 
 mod c03;
 mod c04;
+mod c05;
 mod c06;
 mod c10;
 mod c16;
@@ -25,6 +26,8 @@ pub struct Pending {
     pub line: String,
     pub expect: String,
     pub human: String,
+    /// optional canonicalisation of the model's answer before comparison
+    pub norm: Option<Box<dyn Fn(&str) -> String + Send>>,
 }
 
 /// Differential + oracle context handed to each property module.
@@ -52,6 +55,12 @@ impl Ctx {
     /// Submit one case: `line` goes to the model driver, `expect` is what the real crate
     /// produced in the driver's canonical result format.
     pub fn case(&mut self, line: String, expect: String, nontrivial: bool, human: &dyn Fn() -> String) {
+        self.case_inner(line, expect, nontrivial, human, None)
+    }
+    pub fn case_norm(&mut self, line: String, expect: String, nontrivial: bool, human: &dyn Fn() -> String, norm: Box<dyn Fn(&str) -> String + Send>) {
+        self.case_inner(line, expect, nontrivial, human, Some(norm))
+    }
+    fn case_inner(&mut self, line: String, expect: String, nontrivial: bool, human: &dyn Fn() -> String, norm: Option<Box<dyn Fn(&str) -> String + Send>>) {
         self.evaluations += 1;
         if nontrivial && self.distinct.insert(fnv(&line)) {
             self.nontrivial += 1;
@@ -64,7 +73,7 @@ impl Ctx {
             let _ = writeln!(w, "{}", line);
         }
         if let Some(tx) = &self.tx {
-            let _ = tx.send(Pending { line, expect, human: human() });
+            let _ = tx.send(Pending { line, expect, human: human(), norm });
         }
     }
     /// Count an evaluation that has no model counterpart (oracle-only).
@@ -105,6 +114,13 @@ fn main() {
         std::process::exit(2);
     }
     let prop = args[1].clone();
+    if prop == "gen-policy" {
+        std::panic::set_hook(Box::new(|_| {}));
+        match c05::gen_policy() {
+            Ok(s) => { print!("{s}"); std::process::exit(0); }
+            Err(e) => { eprintln!("gen-policy failed: {e}"); std::process::exit(1); }
+        }
+    }
     let mut tier = "quick".to_string();
     let mut seed: u64 = 1;
     let mut driver: Option<String> = None;
@@ -144,7 +160,8 @@ fn main() {
             for p in rx.iter() {
                 buf.clear();
                 let n = rd.read_line(&mut buf).unwrap_or(0);
-                let got = if n == 0 { "<driver-eof>".to_string() } else { buf.trim_end().to_string() };
+                let mut got = if n == 0 { "<driver-eof>".to_string() } else { buf.trim_end().to_string() };
+                if let Some(f) = &p.norm { got = f(&got); }
                 compared += 1;
                 if got.trim_end() != p.expect.trim_end() {
                     n_mismatch += 1;
@@ -188,6 +205,7 @@ fn main() {
     let ok = match prop.as_str() {
         "C03" => { c03::run(&mut ctx); true }
         "C04" => { c04::run(&mut ctx); true }
+        "C05" => { c05::run(&mut ctx); true }
         "C06" => { c06::run(&mut ctx); true }
         "C10" => { c10::run(&mut ctx); true }
         "C16" => { c16::run(&mut ctx); true }
